@@ -29,12 +29,22 @@ Init == /\ grid \in Grids
         /\ n \in [1..K -> {RI(x) : x \in Pops}]
         /\ g = [j \in 1..(K + 1) |-> RZero]
         /\ rate = RZero /\ rpos = 1 /\ dt = ROne /\ ph = 0
-Choose == /\ ph = 0 /\ ph' = 1
-          /\ g' \in [1..(K + 1) -> {RI(x) : x \in Grows}]
-          /\ rate' \in {RI(x) : x \in Rates}
-          /\ rpos' \in RPos
-          /\ dt' \in Dts
-          /\ UNCHANGED <<grid, n>>
+(* the position of the nucleation radius only matters to the nucleation-class and sum clauses, which do not depend on the growth
+   field or the step: the product is therefore explored as (every growth field x every step x two radius positions) plus
+   (every radius position x a reduced growth alphabet x one step) *)
+ChooseFlux == /\ ph = 0 /\ ph' = 1
+              /\ g' \in [1..(K + 1) -> {RI(x) : x \in Grows}]
+              /\ rate' \in {RI(x) : x \in Rates}
+              /\ rpos' \in {1, 4}
+              /\ dt' \in Dts
+              /\ UNCHANGED <<grid, n>>
+ChooseRadius == /\ ph = 0 /\ ph' = 1
+                /\ g' \in [1..(K + 1) -> {RI(x) : x \in GrowsSmall}]
+                /\ rate' \in {RI(x) : x \in Rates}
+                /\ rpos' \in RPos
+                /\ dt' = ROne
+                /\ UNCHANGED <<grid, n>>
+Choose == ChooseFlux \/ ChooseRadius
 Next == Choose
 
 nf == NetFlux(K, b, n, g)
